@@ -708,7 +708,9 @@ func (mpt *MerklePatriciaTrie) deleteAtNode(key Key, node Node, prefix, path Pat
 			nnode := cnode.Clone().(*LeafNode)
 			nnode.SetOrigin(mpt.Version)
 			nnode.Prefix = concat(prefix)
-			nnode.Path = append(nodeImpl.Path, cnodeImpl.Path...)
+			// concat, not append: nodeImpl is owned by the store/cache and its path may have
+			// spare capacity that is the memory of other nodes' paths
+			nnode.Path = concat(nodeImpl.Path, cnodeImpl.Path...)
 			nnode.SetValue(cnodeImpl.GetValue())
 			if err := mpt.deleteNode(cnode); err != nil {
 				return nil, nil, err
